@@ -324,7 +324,7 @@ def _norm(ctx, atoms):
             c = conc(a.n)
             if c == 0:
                 continue
-            if out and isinstance(out[-1], APad):
+            if out and isinstance(out[-1], APad) and not getattr(a, "any_content", False) and not getattr(out[-1], "any_content", False):
                 out[-1] = APad(out[-1].n + a.n, out[-1].dontcare and a.dontcare)
                 continue
         if isinstance(a, AField) and conc(a.count) == 0:
@@ -358,6 +358,19 @@ def stream_eq_goals(ctx, impl, spec, what="stream", guard=True):
             break
         a, b = impl[i], spec[j]
         tag = f"{what}.@{pos}"
+        if isinstance(b, APad) and b.dontcare and getattr(b, "any_content", False):
+            # the specification leaves these bytes free: any atoms of exactly that total length are accepted
+            tot, n_ = 0, i
+            while n_ < len(impl):
+                tot = tot + alen(ctx, impl[n_])
+                n_ += 1
+                if ctx.entails(eq(tot, b.n)):
+                    break
+                if n_ - i > 6:
+                    break
+            goals.append((f"{tag}.free_bytes.length", Implies(guard, eq(tot, b.n))))
+            i, j, pos = n_, j + 1, pos + 1
+            continue
         if isinstance(a, AField) and isinstance(b, AField) and a.kind == b.kind and not ctx.entails(eq(a.count, b.count)):
             # items followed by explicit zero bytes are the same bytes as more items that are zero
             for side, lst, pos_ in (("impl", impl, i), ("spec", spec, j)):
